@@ -296,25 +296,45 @@ Proof. destruct o as [s' | | |]; cbn; [eauto | tauto | tauto | tauto]. Qed.
 
 (* the regenerated dispatch sends a call to the BLAS branch only if BLAS updates out in place:
    depends on regime_of, blas_applicable (_blas_is_applicable) and blas_ravel_order *)
-Lemma blas_regime_sound (size : Z) (fl bdt : bool) (f1 f2 fo : bool * bool) :
+(* the dtype test of the regenerated _blas_is_applicable: applicable only for a dtype BLAS updates in
+   place (native byte order AND one of the four type codes).  A test that looks at the type code only
+   (dtype.char in 'fdFD') does not discharge this. *)
+Lemma blas_applicable_native (d : dtinfo) (size : Z) (flags : list (bool * bool)) :
+  blas_applicable true d size flags = true -> native_blas d = true.
+Proof.
+  unfold blas_applicable. destruct d as [c n]. unfold native_blas, dt_char_in. cbn [dt_native dt_char negb].
+  repeat match goal with |- context [existsb ?f ?l] => destruct (existsb f l) end;
+  destruct n; cbn [andb negb orb];
+  repeat match goal with |- context [if ?b then _ else _] => destruct b end;
+  intros E; try discriminate E; reflexivity.
+Qed.
+
+Lemma blas_regime_sound (size : Z) (fl : bool) (bdt : dtinfo) (f1 f2 fo : bool * bool) :
   regime_of size fl (blas_applicable true bdt size [f1; f2; fo]) = Blas ->
   bi_view (@blas_info bdt [f1; f2; fo]) = true /\ bi_call (@blas_info bdt [f1; f2; fo]) = true.
 Proof.
-  unfold regime_of, blas_applicable, blas_info, blas_ravel_order.
+  intros Hr.
+  assert (Ha : blas_applicable true bdt size [f1; f2; fo] = true).
+  { revert Hr. unfold regime_of. destruct (blas_applicable true bdt size [f1; f2; fo]); [reflexivity|].
+    repeat match goal with
+    | |- context [Z.ltb ?x ?y] => destruct (Z.ltb x y)
+    | |- context [Z.leb ?x ?y] => destruct (Z.leb x y)
+    | |- context [Z.gtb ?x ?y] => destruct (Z.gtb x y)
+    | |- context [Z.geb ?x ?y] => destruct (Z.geb x y)
+    end; destruct fl; cbn; intros E; discriminate E. }
+  pose proof (blas_applicable_native bdt size _ Ha) as Hn.
+  revert Ha. unfold blas_applicable, blas_info, blas_ravel_order. rewrite Hn.
   destruct f1 as [c1 g1], f2 as [c2 g2], fo as [co go].
-  cbn [nth forallb existsb fst snd bi_view bi_call].
-  (* whatever comparisons of the size the regenerated tests use *)
+  cbn [nth forallb existsb fst snd bi_view bi_call negb].
   repeat match goal with
-  | |- context [Z.ltb ?x ?y] => destruct (Z.ltb x y)
-  | |- context [Z.leb ?x ?y] => destruct (Z.leb x y)
   | |- context [Z.gtb ?x ?y] => destruct (Z.gtb x y)
-  | |- context [Z.geb ?x ?y] => destruct (Z.geb x y)
+  | |- context [Z.ltb ?x ?y] => destruct (Z.ltb x y)
   end;
-  destruct fl, bdt, c1, g1, c2, g2, co, go; cbn; intros E; try discriminate E; auto.
+  destruct c1, g1, c2, g2, co, go; cbn; intros E; try discriminate E; auto.
 Qed.
 
 Lemma lincomb_impl_correct {T} {N : Num T} {F : NumField T}
-      (fl bdt : bool) (f1 f2 fo : bool * bool) (a b : T) (i1 i2 io : nat) (s : store T) :
+      (fl : bool) (bdt : dtinfo) (f1 f2 fo : bool * bool) (a b : T) (i1 i2 io : nat) (s : store T) :
   length (s i1) = length (s i2) -> length (s io) = length (s i1) ->
   exists s', lincomb_impl (fun u => u) fl bdt [f1; f2; fo] a i1 b i2 io s = Ok s'
           /\ s' io = vlin a (s i1) b (s i2)
@@ -332,7 +352,7 @@ Qed.
 
 (* integer (or any non-floating) dtype: only the direct regime is used, at every size; the stored
    result is the conversion [cast] of a*x1 + b*x2 (integers embed in the field) *)
-Lemma lincomb_impl_nonfloating {T} {N : Num T} {F : NumField T} (cast : T -> T) (bdt : bool)
+Lemma lincomb_impl_nonfloating {T} {N : Num T} {F : NumField T} (cast : T -> T) (bdt : dtinfo)
       (flags : list (bool * bool)) (a b : T) (i1 i2 io : nat) (s : store T) :
   length (s i1) = length (s i2) -> length (s io) = length (s i1) ->
   exists s', lincomb_impl cast false bdt flags a i1 b i2 io s = Ok s'
@@ -347,7 +367,7 @@ Qed.
 
 (* the size argument only selects the regime: the same conclusion for EVERY size value *)
 Lemma lincomb_impl_sz_correct {T} {N : Num T} {F : NumField T}
-      (fl bdt : bool) (f1 f2 fo : bool * bool) (size : Z) (a b : T) (i1 i2 io : nat) (s : store T) :
+      (fl : bool) (bdt : dtinfo) (f1 f2 fo : bool * bool) (size : Z) (a b : T) (i1 i2 io : nat) (s : store T) :
   length (s i1) = length (s i2) -> length (s io) = length (s i1) ->
   exists s', lincomb_impl_sz (fun u => u) fl bdt [f1; f2; fo] size a i1 b i2 io s = Ok s'
           /\ s' io = vlin a (s i1) b (s i2)
